@@ -193,7 +193,8 @@ CLAIMED = {
        "the four radixes denotes its positional value when that is <= 2^63 - 1 (<= 2^63 behind a minus sign, so MIN_INT reads back) "
        "and is rejected otherwise, whatever underscores it contains (with boundary instances); each escape the printer emits for "
        "the modelled (ASCII) class is read back as the character it stands for, checked exhaustively over all 128 code points with "
-       "digit / letter / empty continuations (kernel `decide`). The round trip of whole nested values is NOT proved: it is checked "
+       "digit / letter / empty continuations (kernel `decide`), and every ASCII STRING is read back from its escaped form "
+       "(ascii_string_roundtrip: unescape (escape s) = s by induction, with a per-character lemma for an arbitrary remaining text). The round trip of whole nested values is NOT proved: it is checked "
        "on generated values in both directions between model and implementation - the implementation's debug text vs. the model "
        "printer, the text read by Variable::from_str vs. the model reader and run as a program - and integer literal forms are "
        "compared with their mathematical value computed in Python.",
